@@ -80,9 +80,16 @@ ServeViol(e) ==
     (IF e.res = "hang" THEN {"C16/serve-does-not-return/" \o where}
      ELSE IF (e.res = "Ok") # wantOk THEN {"C16/serve-result/disconnect-at-" \o where \o "/got=" \o e.res} ELSE {})
     \cup (IF e.workers_left > 0 THEN {"C16/serve-left-worker-threads-running/" \o where} ELSE {})
-TVOther == /\ l <= Len(Rec) /\ Rec[l].ev \in {"hook", "threads", "serve"} /\ l' = l + 1
+\* the daemon object dropped while its connection is up (no shutdown request, no wait): its threads go away, the peer sees
+\* end-of-stream
+DropConnViol(e) ==
+    (IF ~e.dropped THEN {"C16/drop-of-a-connected-daemon-does-not-return/peer-sent=" \o e.sent} ELSE {})
+    \cup (IF e.threads_after > e.threads_before THEN {"C16/threads-left-after-drop/daemon-dropped-while-connected/peer-sent=" \o e.sent} ELSE {})
+    \cup (IF e.peer_sees # "eof" THEN {"C16/peer-sees-no-end-of-stream/daemon-dropped-while-connected/peer-sent=" \o e.sent} ELSE {})
+TVOther == /\ l <= Len(Rec) /\ Rec[l].ev \in {"hook", "threads", "serve", "dropconn"} /\ l' = l + 1
            /\ viol' = IF Rec[l].ev = "threads" /\ Rec[l].exit /\ Rec[l].after > Rec[l].before THEN AddViol(viol, {"C16/threads-left-after-drop"}, cur)
-                      ELSE IF Rec[l].ev = "serve" THEN AddViol(viol, ServeViol(Rec[l]), cur) ELSE viol
+                      ELSE IF Rec[l].ev = "serve" THEN AddViol(viol, ServeViol(Rec[l]), cur)
+                      ELSE IF Rec[l].ev = "dropconn" THEN AddViol(viol, DropConnViol(Rec[l]), cur) ELSE viol
            /\ UNCHANGED <<tpc, err, flag, sock, cpc, peerOpen, consumed, ncallers, peerSends, peerCloses, off, judged, cur>>
 \* the process under test was killed by a signal while this case ran (recorded by the driver; `begin` marks the letter that
 \* was in progress): judged like any other observation -- whatever the property, an input that kills the process breaks it
